@@ -234,7 +234,9 @@ func packReify(raw json.RawMessage) interface{} {
 		return l
 	}
 	for i, e := range l {
-		m[strconv.Itoa(i)] = e
+		if e != nil { // in the map view of a mixed node a nil position is not there, like a nil entry
+			m[strconv.Itoa(i)] = e
+		}
 	}
 	return m
 }
